@@ -1225,3 +1225,204 @@ func init() {
 		Gen:  c18GenInterleave,
 	})
 }
+
+// ---------------------------------------------------------------- %v of values with shared and circular parts
+//
+// %v is replaced by the rendering of its argument -- the one print gives: a container that is
+// reachable several times without being its own ancestor (the same object / array stored as
+// siblings, at different depths, objects in arrays and arrays in objects) is written in full
+// every time, and <circular reference> appears exactly where a container is its own ancestor.
+// The values are built by programs (gen_values.go); the expected text is computed on the graph.
+
+// c18SharedGraph: one container referenced 2-4 times from holders of both kinds at several depths
+func c18SharedGraph(r *rand.Rand) (*vgGraph, string) {
+	g := &vgGraph{}
+	kinds := []byte{'a', 'o'}
+	shared := g.newCont(pick(r, kinds))
+	for j := r.Intn(3); j > 0; j-- {
+		g.link(r, shared, g.scalar(r, true, false), pick(r, []string{"a", "b", "v"}))
+	}
+	if chance(r, 0.3) {
+		// the shared container has a container of its own
+		inner := g.newCont(pick(r, kinds))
+		g.link(r, inner, g.scalar(r, true, false), "z")
+		g.link(r, shared, inner, "k1")
+		if chance(r, 0.5) {
+			g.link(r, shared, inner, "c") // shared inside the shared one
+		}
+	}
+	top := g.newCont(pick(r, kinds))
+	refs := 2 + r.Intn(3)
+	keys := []string{"a", "b", "c", "k1", "z", "tail", "name", "x y"}
+	r.Shuffle(len(keys), func(i, j int) { keys[i], keys[j] = keys[j], keys[i] })
+	shape := fmt.Sprintf("%c shared %dx in %c:", g.nodes[shared].kind, refs, g.nodes[top].kind)
+	for k := 0; k < refs; k++ {
+		switch d := r.Intn(4); d {
+		case 0: // a sibling
+			g.link(r, top, shared, keys[k])
+			shape += " sibling"
+		case 1, 2: // one or two levels down, through holders of either kind
+			h := g.newCont(pick(r, kinds))
+			if chance(r, 0.4) {
+				g.link(r, h, g.scalar(r, true, false), "v")
+			}
+			g.link(r, h, shared, "a")
+			if d == 2 {
+				h2 := g.newCont(pick(r, kinds))
+				g.link(r, h2, h, "b")
+				h = h2
+			}
+			g.link(r, top, h, keys[k])
+			shape += fmt.Sprintf(" depth%d", d)
+		default: // twice in the same holder
+			h := g.newCont(pick(r, kinds))
+			g.link(r, h, shared, "a")
+			g.link(r, h, shared, "b")
+			g.link(r, top, h, keys[k])
+			shape += " twin"
+		}
+		if chance(r, 0.3) {
+			g.link(r, top, g.scalar(r, true, false), keys[(k+4)%len(keys)])
+		}
+	}
+	if chance(r, 0.25) {
+		// and a real cycle next to the sharing
+		ring := g.newCont(pick(r, kinds))
+		g.link(r, ring, ring, "self")
+		g.link(r, top, ring, "tail")
+		shape += " +cycle"
+	}
+	return g, shape
+}
+
+func c18GraphCase(r *rand.Rand, g *vgGraph, kind string, ids []int) Case {
+	var fb strings.Builder
+	var args []c18Arg
+	var shown []string
+	for k, id := range ids {
+		rend := g.pretty(id, nil, false)
+		if k > 0 || chance(r, 0.3) {
+			fb.WriteString(pick(r, []string{"|", " ", ", ", "x=", "%%", ""}))
+		}
+		fb.WriteString("%" + c18Width(r, len(rend)) + "v")
+		args = append(args, c18Arg{expr: g.varOf(id), kind: 'o', render: rend, known: true})
+		shown = append(shown, g.pretty(id, nil, true))
+		if chance(r, 0.2) {
+			fb.WriteString("%s")
+			args = append(args, c18Str(pick(r, []string{"", "s", "é"})))
+		}
+	}
+	if chance(r, 0.5) {
+		fb.WriteString("\n")
+	}
+	format := fb.String()
+	want, ok, _ := c18Ref(format, args)
+	if !ok {
+		panic("c18GraphCase: the reference formatter rejects " + format)
+	}
+	parts := []string{mustStrLit(format)}
+	vars := make([]string, len(ids))
+	for k, a := range args {
+		parts = append(parts, a.expr)
+		if k < len(ids) {
+			vars[k] = g.varOf(ids[k])
+		}
+	}
+	// afterwards the same values through print: %v renders like print
+	prog := "{\n  " + strings.Join(g.stmts, "\n  ") + "\n  print 'B'\n  printf(" + strings.Join(parts, ", ") + ")\n  print 'E'\n  print " + strings.Join(vars, ", ") + "\n}\n"
+	full := "B\n" + want + "E\n" + strings.Join(shown, " ") + "\n"
+	return Case{Req: RunReq(prog, nil, []File{{Name: "in.json", Data: []byte("{}")}}, false), Fields: []string{"class", "out"},
+		Meta: metaProg(prog, "format", format, "kind", kind, "expect", full),
+		Oracle: func(i Resp) string {
+			if i["class"] != "ok" {
+				return "class=" + i["class"] + " msg=" + i["msg"] + " (a well-formed printf of containers cannot fail)"
+			}
+			got := string(i.Bytes("out"))
+			if got == full {
+				return ""
+			}
+			if gm, wm := strings.Count(got, "<circular reference>"), strings.Count(full, "<circular reference>"); gm != wm {
+				return fmt.Sprintf("%s: %d cycle marker(s) written, the value has %d place(s) where a container is its own ancestor (sharing is printed in full): got %q, want %q", kind, gm, wm, short(got), short(full))
+			}
+			return fmt.Sprintf("%s: printf / print wrote %q, the rendering computed on the graph is %q", kind, short(got), short(full))
+		}}
+}
+
+func init() {
+	register(Family{
+		Name: "printf-v-graphs", Prop: "C18",
+		Rule: "%v (1-3 per format, random widths of either sign / zero flag, literal text, %% and %s in between) of program-built containers with shared parts -- one array / object referenced 2-4 times as siblings, one or two levels down through arrays and objects, twice in the same holder, itself holding a shared container, next to a real cycle -- of acyclic random graphs with sharing, of rings of 1-4 containers (arrays, objects, mixed) printed from inside and from outside, and of random cyclic graphs; the same container passed to two directives of one printf; followed by print of the same values; oracle: the reference formatter over the rendering computed on the graph (<circular reference> exactly where a container is its own ancestor, shared containers in full every time), the print line equal to the %v renderings; also compared with the model; non-trivial = distinct program",
+		Gen: func(r *rand.Rand, tier string, emit func(Case)) {
+			n := tierN(tier, 2500, 25000)
+			for i := 0; i < n; i++ {
+				var g *vgGraph
+				var kind string
+				switch x := r.Intn(10); {
+				case x < 5:
+					g, kind = c18SharedGraph(r)
+				case x < 7:
+					g = vgRandomGraph(r, 2+r.Intn(4), true, true, false)
+					kind = "acyclic with sharing"
+				case x < 9:
+					ln := 1 + r.Intn(4)
+					kinds := pick(r, []byte{'a', 'o', 'm'})
+					g = vgRing(r, ln, kinds, true)
+					kind = fmt.Sprintf("ring of %d (%c)", ln, kinds)
+					if chance(r, 0.4) {
+						out := g.newCont(pick(r, []byte{'a', 'o'}))
+						g.link(r, out, g.conts[r.Intn(ln)], "a")
+						g.link(r, out, g.conts[r.Intn(ln)], "b")
+						kind += " entered from outside twice"
+					}
+				default:
+					g = vgRandomGraph(r, 1+r.Intn(5), false, true, false)
+					kind = "random graph"
+				}
+				np := 1 + r.Intn(3)
+				ids := make([]int, np)
+				for j := range ids {
+					ids[j] = pick(r, g.conts)
+					if j == 0 || chance(r, 0.5) {
+						ids[j] = g.conts[len(g.conts)-1-r.Intn(1+len(g.conts)/3)] // the containers built last hold the others
+					}
+					if j > 0 && chance(r, 0.2) {
+						ids[j] = ids[0]
+					}
+				}
+				if strings.HasPrefix(kind, "a shared") || strings.HasPrefix(kind, "o shared") {
+					// the holder of all the references is the container created third or later: find it by its rendering size
+					best := ids[0]
+					for _, c := range g.conts {
+						if len(g.pretty(c, nil, false)) > len(g.pretty(best, nil, false)) {
+							best = c
+						}
+					}
+					ids[0] = best
+				}
+				emit(c18GraphCase(r, g, kind, ids))
+			}
+			// hand-written corner cases
+			for _, x := range []struct{ prog, want string }{
+				{"{ p = {n: 'ann'}; pair = [p, p]; printf('%v|%v\\n', pair, p) }", "[{\"n\": \"ann\"}, {\"n\": \"ann\"}]|{\"n\": \"ann\"}\n"},
+				{"{ p = {n: $.name}; idx = {first: p, list: [p], tree: [[1], {k: [2]}]}; printf('%30v', idx) }", "{\"first\": {\"n\": \"ann\"}, \"list\": [{\"n\": \"ann\"}], \"tree\": [[1], {\"k\": [2]}]}"},
+				{"{ loop = [0]; loop[1] = loop; printf('%v', loop) }", "[0, <circular reference>]"},
+				{"{ o = {}; o.me = o; printf('%v %v', o, o) }", "{\"me\": <circular reference>} {\"me\": <circular reference>}"},
+				{"{ e = {}; printf('%v', [e, e, [e], {k: e}]) }", "[{}, {}, [{}], {\"k\": {}}]"},
+				{"{ e = []; printf('%v', {a: e, b: e, c: {d: e}}) }", "{\"a\": [], \"b\": [], \"c\": {\"d\": []}}"},
+				{"{ printf('%v', [$, $, {again: $}]) }", "[{\"name\": \"ann\"}, {\"name\": \"ann\"}, {\"again\": {\"name\": \"ann\"}}]"},
+				{"{ p = {k: 1}; q = {n: 0}; q.p = p; printf('%v', [q, p, q]) }", "[{\"n\": 0, \"p\": {\"k\": 1}}, {\"k\": 1}, {\"n\": 0, \"p\": {\"k\": 1}}]"},
+				{"{ p = {k: 1}; a = [p]; a.push(a); printf('%v|%v', [a, p], p) }", "[[{\"k\": 1}, <circular reference>], {\"k\": 1}]|{\"k\": 1}"},
+				{"{ p = {k: 1}; printf('%v', p); printf('%v', [p]); printf('%v', [p, p]) }", "{\"k\": 1}[{\"k\": 1}][{\"k\": 1}, {\"k\": 1}]"},
+			} {
+				want := x.want
+				emit(Case{Req: RunReq(x.prog, nil, []File{{Name: "in.json", Data: []byte(`{"name": "ann"}`)}}, false), Fields: []string{"class", "out"},
+					Meta: metaProg(x.prog, "expect", want), Oracle: func(i Resp) string {
+						if i["class"] != "ok" || string(i.Bytes("out")) != want {
+							return "expected exactly " + strconv.Quote(want) + ", got class=" + i["class"] + " out=" + strconv.Quote(string(i.Bytes("out")))
+						}
+						return ""
+					}})
+			}
+		},
+	})
+}
